@@ -15,7 +15,8 @@ use lattices::map_union_with_tombstones::MapUnionWithTombstones;
 use lattices::set_union::{SetUnion, SetUnionHashSet, SetUnionSingletonSet};
 use lattices::set_union_with_tombstones::SetUnionWithTombstones;
 use lattices::tombstone::{FstTombstoneSet, RoaringTombstoneSet, TombstoneSet};
-use lattices::{IsBot, Merge};
+use lattices::map_union::MapUnionHashMap;
+use lattices::{IsBot, LatticeFrom, Merge, WithBot};
 #[allow(unused_imports)]
 use std::cmp::PartialOrd;
 
@@ -261,6 +262,15 @@ enum Op {
     Law { a: AVal, b: AVal, c: AVal },
     /// order operations on two explicit values
     Ord { a: AVal, b: AVal },
+    /// direct LatticeFrom conversions of one explicit value between backing representations
+    From { a: AVal },
+    /// ACI / join of a compound lattice with tombstone-set values (ty "mapunion" | "withbot")
+    NLaw { ty: String, a: NVal, b: NVal, c: NVal },
+}
+/// a nested abstract value: key -> inner value (WithBot: at most the key 0)
+type NVal = Vec<(u8, AVal)>;
+fn nval_json(v: &NVal) -> Value {
+    Value::Array(v.iter().map(|(k, x)| json!({"k": k, "v": aval_json(x)})).collect())
 }
 /// an explicit abstract value: (live pairs, tombstoned keys)
 type AVal = (Vec<(u8, u8)>, Vec<u8>);
@@ -274,7 +284,7 @@ impl Op {
     fn r(&self) -> usize {
         match self {
             Op::Load { r, .. } | Op::Ins { r, .. } | Op::InsBot { r, .. } | Op::Del { r, .. } | Op::Merge { r, .. } => *r,
-            Op::Law { .. } | Op::Ord { .. } => 1,
+            Op::Law { .. } | Op::Ord { .. } | Op::From { .. } | Op::NLaw { .. } => 1,
         }
     }
     fn event(&self) -> Value {
@@ -286,6 +296,8 @@ impl Op {
             Op::Merge { r, s } => json!({"e":"merge","r":r,"s":s}),
             Op::Law { a, b, c } => json!({"e":"law","a":aval_json(a),"b":aval_json(b),"c":aval_json(c)}),
             Op::Ord { a, b } => json!({"e":"ord","a":aval_json(a),"b":aval_json(b)}),
+            Op::From { a } => json!({"e":"from","a":aval_json(a)}),
+            Op::NLaw { ty, a, b, c } => json!({"e":"nlaw","ty":ty,"a":nval_json(a),"b":nval_json(b),"c":nval_json(c)}),
         }
     }
 }
@@ -341,7 +353,7 @@ impl<R: Replica> Backend for Reps<R> {
                     let other = reps[s - 1].clone();
                     reps[r - 1].merge_from(&other)
                 }
-                Op::Law { .. } | Op::Ord { .. } => unreachable!(),
+                Op::Law { .. } | Op::Ord { .. } | Op::From { .. } | Op::NLaw { .. } => unreachable!(),
             };
             (ch, reps[op.r() - 1].reveal())
         });
@@ -373,13 +385,143 @@ fn backends(variant: &str, n: usize) -> Vec<Box<dyn Backend>> {
     }
 }
 
+// ---- LatticeFrom conversions between backing representations (C04) ------------------------------
+impl<K: Key, T> SetRep<K, T>
+where
+    T: TombstoneSet<K> + Clone + IntoIterator<Item = K> + FromIterator<K> + Default + Own<K>,
+{
+    fn convert<T2>(&self) -> SetRep<K, T2>
+    where
+        T2: TombstoneSet<K> + Clone + IntoIterator<Item = K> + FromIterator<K> + Default + Own<K>,
+    {
+        SetRep(LatticeFrom::lattice_from(self.0.clone()))
+    }
+}
+impl<K: Key, T> MapRep<K, T>
+where
+    T: TombstoneSet<K> + Clone + IntoIterator<Item = K> + FromIterator<K> + Default + Own<K>,
+{
+    fn convert<T2>(&self) -> MapRep<K, T2>
+    where
+        T2: TombstoneSet<K> + Clone + IntoIterator<Item = K> + FromIterator<K> + Default + Own<K>,
+    {
+        MapRep(LatticeFrom::lattice_from(self.0.clone()))
+    }
+}
+fn conv_obs(name: &'static str, f: impl FnOnce() -> Reveal) -> Value {
+    match hv_common::catch(f) {
+        Ok(r) => json!({"b":name,"panic":false,"out":reveal_json(r)}),
+        Err(msg) => json!({"b":name,"panic":true,"msg":msg}),
+    }
+}
+macro_rules! conversions {
+    ($Rep:ident, $a:expr) => {{
+        let a: &AVal = $a;
+        let h = $Rep::<u64, HashSet<u64>>::load(&a.0, &a.1);
+        let r = $Rep::<u64, RoaringTombstoneSet>::load(&a.0, &a.1);
+        let sh = $Rep::<String, HashSet<String>>::load(&a.0, &a.1);
+        let f = $Rep::<String, FstTombstoneSet<String>>::load(&a.0, &a.1);
+        vec![
+            conv_obs("hash>hash", || h.convert::<HashSet<u64>>().reveal()),
+            conv_obs("hash>roaring", || h.convert::<RoaringTombstoneSet>().reveal()),
+            conv_obs("roaring>hash", || r.convert::<HashSet<u64>>().reveal()),
+            conv_obs("roaring>roaring", || r.convert::<RoaringTombstoneSet>().reveal()),
+            conv_obs("strhash>strhash", || sh.convert::<HashSet<String>>().reveal()),
+            conv_obs("strhash>fst", || sh.convert::<FstTombstoneSet<String>>().reveal()),
+            conv_obs("fst>strhash", || f.convert::<HashSet<String>>().reveal()),
+            conv_obs("fst>fst", || f.convert::<FstTombstoneSet<String>>().reveal()),
+        ]
+    }};
+}
+
+// ---- compound lattices over tombstone sets (C01 / C04) --------------------------------------------
+type Inner<T> = SetUnionWithTombstones<HashSet<u64>, T>;
+fn inner<T: FromIterator<u64>>(v: &AVal) -> Inner<T> {
+    SetUnionWithTombstones::new(v.0.iter().map(|&(k, _)| u64::enc(k)).collect(), v.1.iter().map(|&k| u64::enc(k)).collect())
+}
+fn inner_json<T>(x: &Inner<T>) -> Value
+where
+    T: TombstoneSet<u64> + Clone + IntoIterator<Item = u64> + FromIterator<u64> + Default + Own<u64>,
+{
+    reveal_json(SetRep::<u64, T>(x.clone()).reveal())
+}
+/// the compound lattice, its construction from / revelation to nested abstract values, and its own ==
+trait Nested: Clone + Merge<Self> {
+    fn build(v: &NVal) -> Self;
+    fn show(&self) -> Value;
+    fn own_eq(&self, o: &Self) -> i64;
+}
+macro_rules! nested_impl {
+    ($T:ty, $eq:expr) => {
+        impl Nested for MapUnionHashMap<u8, Inner<$T>> {
+            fn build(v: &NVal) -> Self {
+                MapUnionHashMap::new(v.iter().map(|(k, x)| (*k, inner::<$T>(x))).collect())
+            }
+            fn show(&self) -> Value {
+                let mut ks: Vec<&u8> = self.as_reveal_ref().keys().collect();
+                ks.sort();
+                Value::Array(ks.iter().map(|k| json!({"k": k, "v": inner_json(&self.as_reveal_ref()[*k])})).collect())
+            }
+            fn own_eq(&self, o: &Self) -> i64 {
+                let f: Option<fn(&Self, &Self) -> bool> = $eq;
+                f.map(|f| f(self, o) as i64).unwrap_or(-1)
+            }
+        }
+        impl Nested for WithBot<Inner<$T>> {
+            fn build(v: &NVal) -> Self {
+                WithBot::new(v.first().map(|(_, x)| inner::<$T>(x)))
+            }
+            fn show(&self) -> Value {
+                match self.as_reveal_ref() {
+                    Some(x) => json!([{"k": 0, "v": inner_json(x)}]),
+                    None => json!([]),
+                }
+            }
+            fn own_eq(&self, o: &Self) -> i64 {
+                let f: Option<fn(&Self, &Self) -> bool> = $eq;
+                f.map(|f| f(self, o) as i64).unwrap_or(-1)
+            }
+        }
+    };
+}
+nested_impl!(HashSet<u64>, Some(|a, b| a == b));
+nested_impl!(RoaringTombstoneSet, None);
+
+fn nlaw_obs<N: Nested>(name: &'static str, a: &NVal, b: &NVal, c: &NVal) -> Value {
+    let res = hv_common::catch(|| {
+        let join = |x: &N, y: &N| {
+            let mut z = x.clone();
+            z.merge(y.clone());
+            z
+        };
+        let (ra, rb, rc) = (N::build(a), N::build(b), N::build(c));
+        let (ab, ba, aa) = (join(&ra, &rb), join(&rb, &ra), join(&ra, &ra));
+        let (abc1, abc2) = (join(&ab, &rc), join(&ra, &join(&rb, &rc)));
+        json!({"b":name,"panic":false,"ab":ab.show(),"ba":ba.show(),"aa":aa.show(),"abc1":abc1.show(),"abc2":abc2.show(),
+            "eqc":ab.own_eq(&ba),"eqi":aa.own_eq(&ra),"eqa":abc1.own_eq(&abc2)})
+    });
+    res.unwrap_or_else(|msg| json!({"b":name,"panic":true,"msg":msg}))
+}
+
 /// Runs one case on all backends; returns per step the observations.
 fn run_case(id: usize, variant: &str, n: usize, ops: &[Op], tr: &mut Trace) -> Vec<Vec<Value>> {
     tr.ev(json!({"e":"reset","case":id,"variant":variant,"R":n}));
     let mut bs = backends(variant, n);
     let mut all = Vec::new();
     for op in ops {
-        let obs: Vec<Value> = bs.iter_mut().map(|b| b.apply(op)).collect();
+        let obs: Vec<Value> = match op {
+            Op::From { a } if variant == "set" => conversions!(SetRep, a),
+            Op::From { a } => conversions!(MapRep, a),
+            Op::NLaw { ty, a, b, c } if ty == "mapunion" => vec![
+                nlaw_obs::<MapUnionHashMap<u8, Inner<HashSet<u64>>>>("hash", a, b, c),
+                nlaw_obs::<MapUnionHashMap<u8, Inner<RoaringTombstoneSet>>>("roaring", a, b, c),
+            ],
+            Op::NLaw { a, b, c, .. } => vec![
+                nlaw_obs::<WithBot<Inner<HashSet<u64>>>>("hash", a, b, c),
+                nlaw_obs::<WithBot<Inner<RoaringTombstoneSet>>>("roaring", a, b, c),
+            ],
+            _ => bs.iter_mut().map(|b| b.apply(op)).collect(),
+        };
         let mut ev = op.event();
         ev.as_object_mut().unwrap().insert("obs".into(), Value::Array(obs.clone()));
         tr.ev(ev);
@@ -396,6 +538,20 @@ fn parse_op(o: &Value) -> Op {
     match o["op"].as_str().unwrap() {
         "law" => return Op::Law { a: parse_aval(&o["a"]), b: parse_aval(&o["b"]), c: parse_aval(&o["c"]) },
         "ord" => return Op::Ord { a: parse_aval(&o["a"]), b: parse_aval(&o["b"]) },
+        "from" => return Op::From { a: parse_aval(&o["a"]) },
+        "nlaw" => {
+            let nv = |v: &Value| -> NVal {
+                v.as_array()
+                    .unwrap()
+                    .iter()
+                    .map(|e| match e.as_array() {
+                        Some(p) => (p[0].as_u64().unwrap() as u8, parse_aval(&p[1])), // [key, value] (TLC tuples)
+                        None => (e["k"].as_u64().unwrap() as u8, parse_aval(&e["v"])),
+                    })
+                    .collect()
+            };
+            return Op::NLaw { ty: o["ty"].as_str().unwrap().to_string(), a: nv(&o["a"]), b: nv(&o["b"]), c: nv(&o["c"]) };
+        }
         _ => {}
     }
     let r = o["r"].as_u64().unwrap() as usize;
@@ -433,7 +589,7 @@ fn main() {
                 // model prediction vs every backend, step by step (reported, not judged here)
                 for (i, (s, obs)) in steps.iter().zip(got.iter()).enumerate() {
                     for o in obs {
-                        if matches!(s["o"]["op"].as_str(), Some("law") | Some("ord")) {
+                        if matches!(s["o"]["op"].as_str(), Some("law") | Some("ord") | Some("from") | Some("nlaw")) {
                             continue;
                         }
                         if (o["live"] != s["live"] || o["tomb"] != s["tomb"]) && drift.len() < 30 {
